@@ -51,11 +51,23 @@ Print Assumptions C15_all_is_every_segment.
 (* an explicit id already in use is refused with ValueError (unless an earlier check of the same call
    raises first); the call never returns *)
 Theorem C15_dup_refused : forall c prox z name parent frac group conv ty reord opt,
-  z <> 0%Z -> In z (ids c) ->
+  In z (ids c) ->
   exists e, add_segment true c prox (Some z) name parent frac group conv ty reord opt = BErr e /\
             (e = BDupId \/ e = BNoParent \/ e = BValidation \/ e = BBadInput).
 Proof. exact dup_id_refused. Qed.
 Print Assumptions C15_dup_refused.
+
+(* an explicit id that is free is honoured: it is the id of the new segment (0 included, whatever else exists) *)
+Theorem C15_free_id_honoured : forall c prox z name parent frac group conv ty reord opt c',
+  add_segment true c prox (Some z) name parent frac group conv ty reord opt = BRet c' ->
+  exists s, segs c' = (segs c ++ [s])%list /\ sid s = z.
+Proof. exact free_id_honoured. Qed.
+Print Assumptions C15_free_id_honoured.
+
+(* shipped `if seg_id:`: an explicit 0 already in use is not refused, the segment silently gets id 1 *)
+Theorem C15_explicit_zero_v0_refuted : exists c, run false zero_ops init_factory = BRet c /\ ids c = [0; 1]%Z.
+Proof. exact zero_v0_refuted. Qed.
+Print Assumptions C15_explicit_zero_v0_refuted.
 
 (* explicit or automatic, the id of a new segment is not yet in the cell *)
 Theorem C15_new_id_is_new : forall c prox seg_id name parent frac group conv ty reord opt c',
